@@ -268,6 +268,10 @@ func runC06(tb ev.TB, p c06Prog) ev.Result {
 			other = h
 		}
 	}
+	origSig := map[string][]byte{}
+	for _, e := range src.Log.GetEntries().Slice() {
+		origSig[e.GetHash().String()] = append([]byte(nil), e.GetSig()...)
+	}
 	for _, e := range src.Log.GetEntries().Slice() {
 		h := e.GetHash().String()
 		kind, bad := corrupted[h]
@@ -285,9 +289,11 @@ func runC06(tb ev.TB, p c06Prog) ev.Result {
 		case "key-removed":
 			c.SetKey(nil)
 		case "sig-other-entry":
+			// (signatures as they were before any corruption: with in-place corruption an earlier step may already
+			// have given the donor another signature - possibly this entry's own, which would leave it intact)
 			var donor iface.IPFSLogEntry
 			for _, o := range src.Log.GetEntries().Slice() {
-				if o.GetHash() != e.GetHash() {
+				if o.GetHash() != e.GetHash() && !bytes.Equal(origSig[o.GetHash().String()], origSig[h]) {
 					donor = o
 				}
 			}
@@ -297,7 +303,7 @@ func runC06(tb ev.TB, p c06Prog) ev.Result {
 				s[len(s)-1] ^= 1
 				c.SetSig(s)
 			} else {
-				c.SetSig(donor.GetSig())
+				c.SetSig(origSig[donor.GetHash().String()])
 			}
 		case "sig-flip":
 			s := append([]byte(nil), e.GetSig()...)
